@@ -222,7 +222,26 @@ def walk_unconnect(ctx, cls, layout):
     ctx.check(ok and bool(outs), 'C19.P2', fr, 'reset', 'reset empties the registry', 'reset does not leave an empty registry')
 
 
-def walk_emit(ctx, cls, layout):
+def registry_kind(repo, cls):
+    """'list' when the registry the walks model (self._callbacks, a list of entries) is what reset / the constructor create; otherwise the text of the constructor
+    (a dict of lists, a deque, ...): the abstract registry of 0..2 list entries then does not represent the data structure and P2 / P3 are not decided."""
+    vals = []
+    for nm in ('reset', '__init__'):
+        m = repo.lookup_method(cls, nm)
+        if m is None:
+            continue
+        for a in m.nodes(ast.Assign):
+            if any(isinstance(t, ast.Attribute) and t.attr == '_callbacks' for t in a.targets):
+                vals.append(m.expand(a.value))
+    if not vals:
+        return None
+    other = [v for v in vals if isinstance(v, (ast.Dict, ast.Set, ast.DictComp, ast.SetComp)) or
+             (isinstance(v, ast.Call) and (dotted(v.func) or '').split('.')[-1] in ('dict', 'defaultdict', 'OrderedDict', 'deque', 'set', 'frozenset', 'Counter'))]
+    # only a recognised OTHER container switches the model off; anything else (a list, or a value derived from the registry itself) is walked as a list
+    return unparse(other[0]) if other else 'list'
+
+
+def walk_emit(ctx, cls, layout, only_p1=False):
     repo = ctx.repo
     fi = repo.lookup_method(cls, 'emit')
     if fi is None:
@@ -240,6 +259,8 @@ def walk_emit(ctx, cls, layout):
     calls = [e for kind, val, st in outs for e in st.trace if e[0] == 'call']
     ctx.check(not calls and bool(outs), 'C19.P1', fi, 'emit', 'a silenced emitter calls no callback (%d paths)' % len(outs),
               'emit calls a registered callback although the emitter is silenced')
+    if only_p1:
+        return
     # ---- P3..P6
     problems = {}
     gen_seen = set()
@@ -545,6 +566,18 @@ def walk_reporter(ctx):
 
 def run(ctx):
     cls = ctx.repo.cls(M, 'EventEmitter')
+    kind = registry_kind(ctx.repo, cls)
+    if kind != 'list':
+        # closed-form policy: the walks model the registry as ONE list of entries; another container is not a wrong registry, it is one the model does not cover
+        if kind and (kind.startswith('set(') or kind.startswith('frozenset(')):
+            ctx.violated('C19.P2', cls.name, 'registry', 'the registry is created as `%s`: a set keeps no registration order, so callbacks cannot be called in the order they were connected' % kind)
+        why = 'the registry is created as `%s`, not as a list of entries: the abstract registry of the walks does not model it' % kind if kind else 'the creation of the registry (self._callbacks) was not found'
+        ctx.undecided('C19.P2', cls.name, 'connect / unconnect / reset: ' + why)
+        ctx.undecided('C19.P3', cls.name, 'emit: ' + why)
+        ctx.part('C19.P1', walk_emit, cls, ['event', 'sender', 'func', 'kwargs'], True)
+        ctx.part('C19.P7', walk_silent, cls)
+        ctx.part('C19.R1', walk_reporter)
+        return
     layout = walk_connect(ctx, cls)
     if layout is None:
         # the shape of a registry entry is what unconnect / emit are walked with: without it nothing definite can be said about them
